@@ -63,6 +63,12 @@ fn probes(site: &TSite, orig: &V, dense: bool) -> Vec<(String, V)> {
                 ("alg -2^31-1", V::M(vec![(V::t("alg"), V::N(1 << 31)), (V::t("type"), V::t(PUBLIC_KEY))])),
                 ("alg -2^31 (fits)", param(i32::MIN as i64, PUBLIC_KEY)),
                 ("alg 2^32-7", V::M(vec![(V::t("alg"), V::U((1 << 32) - 7)), (V::t("type"), V::t(PUBLIC_KEY))])),
+                // the range applies to every entry, also to those that are filtered out afterwards
+                ("alg 2^31 with a foreign type", V::M(vec![(V::t("alg"), V::U(1 << 31)), (V::t("type"), V::t("private-key"))])),
+                ("alg -2^31-1 with a foreign type", V::M(vec![(V::t("alg"), V::N(1 << 31)), (V::t("type"), V::t("x"))])),
+                ("alg 2^63 with an empty type", V::M(vec![(V::t("alg"), V::U(1 << 63)), (V::t("type"), V::t(""))])),
+                ("alg 2^31-1 with a foreign type (fits)", V::M(vec![(V::t("alg"), V::U((1 << 31) - 1)), (V::t("type"), V::t("private-key"))])),
+                ("foreign type of 33 bytes", param(-8, &fill_text(33, 5))),
             ];
             for (what, b) in &bad {
                 for before in 0..=3usize {
